@@ -2,6 +2,8 @@
 
 package syntax
 
+import "bytes"
+
 // Verification hooks (build tag verif): a switch that turns the semantics-preserving rewrites
 // of tree.go off, and structural views of character classes.
 
@@ -43,3 +45,14 @@ func (c *CharSet) VerifCharInSlow(ch rune) bool { return c.charInSlow(ch) }
 // VerifOpcodeSize / VerifOpcodeBacktracks expose the opcode tables.
 func VerifOpcodeSize(op InstOp) int        { return opcodeSize(op) }
 func VerifOpcodeBacktracks(op InstOp) bool { return opcodeBacktracks(op) }
+
+// VerifFacts returns the raw results of the tree analyses whose models are verified in /verif:
+// ComputeMinLength, computeMaxLength, the leading and trailing anchor, and the bytes and return
+// value of tryFindPrefix on the root.
+func VerifFacts(t *RegexTree) (minLen, maxLen int, lead, trail NodeType, prefix []byte, cont bool) {
+	root := t.Root
+	vsb := &bytes.Buffer{}
+	cont = tryFindPrefix(root, vsb)
+	return root.ComputeMinLength(), root.computeMaxLength(), findLeadingOrTrailingAnchor(root, true),
+		findLeadingOrTrailingAnchor(root, false), vsb.Bytes(), cont
+}
